@@ -11,5 +11,6 @@ func moreGens() []struct {
 		{"GenLoads.v", genLoads},
 		{"GenRecover.v", genRecover},
 		{"GenConsts.v", genConsts},
+		{"GenReticular.v", genReticular},
 	}
 }
